@@ -12053,6 +12053,9 @@ func (p *parser) captureValueWithPossibleSideEffects(
 		valueFunc = func() js_ast.Expr { return js_ast.Expr{Loc: loc, Data: js_ast.EUndefinedShared} }
 	case *js_ast.EThis:
 		valueFunc = func() js_ast.Expr { return js_ast.Expr{Loc: loc, Data: js_ast.EThisShared} }
+	case *js_ast.ESuper:
+		// "super" is not a value and cannot be stored in a temporary: "(_a = super).x" is a syntax error
+		valueFunc = func() js_ast.Expr { return js_ast.Expr{Loc: loc, Data: js_ast.ESuperShared} }
 	case *js_ast.EBoolean:
 		valueFunc = func() js_ast.Expr { return js_ast.Expr{Loc: loc, Data: &js_ast.EBoolean{Value: e.Value}} }
 	case *js_ast.ENumber:
